@@ -16,7 +16,7 @@ func init() {
 		ID: "C15",
 		Explanation: "Structural rules over string.go (engines E7/E4): AG5 ToLower/ToUpper/Capitalize range over the string rune by rune and append, for every rune, exactly the result of unicode.ToLower / unicode.ToUpper of that rune (Capitalize: upper at offset 0, lower elsewhere) and convert the rune slice back; SnakeCase and KebabCase are the same call differing only in the delimiter constant; " +
 			"Wrap writes token, payload, token in this order and WrapAllRune does so around every rune; ReverseStr converts to []rune, only swaps, and converts back (PV4); the Pad functions return the input unchanged under size <= len(str) (or an empty token), cut the repeated token only on paths that have excluded the empty token (PT6) and otherwise concatenate pad and input in the documented order with the pad cut to exactly size-len(str) bytes (left/right halves for Pad); " +
-			"SplitAtIndex returns on every path a two-element slice whose parts are (\"\", str), (str, \"\") or the complementary cuts str[:x], str[x:]; Unwrap strips exactly len(token) bytes from both ends and only under HasPrefix, HasSuffix and len(str) >= 2*len(token); BD2 Substr: premise (loop-free; integers combined by + - and comparisons; affine forms of (len, offset, length) with small coefficients at every comparison and slice bound) decided on the SSA of Substr, Abs, InRange, Null; under it the outcome (the byte range returned, the empty string, or slice bounds outside 0 <= lo <= hi <= len = panic) is tabulated over len 0..6 x offset, length -9..9 (thorough: doubled) against the statement's selection rule; GS1/GS2 hygiene. " +
+			"SplitAtIndex returns on every path a two-element slice whose parts are (\"\", str), (str, \"\") or the complementary cuts str[:x], str[x:]; Unwrap strips exactly len(token) bytes from both ends and only under HasPrefix, HasSuffix and len(str) >= 2*len(token); BD2 Substr: premise (loop-free; integers combined by + - and comparisons; affine forms of (len, offset, length) with small coefficients at every comparison and slice bound) decided on the SSA of Substr, Abs, InRange, Null; under it the outcome (the byte range returned, the empty string, or slice bounds outside 0 <= lo <= hi <= len = panic) is tabulated over a box of (len, offset, length) whose size is computed from the half-planes the code and the statement decide by (at least len 0..6 x -9..9, on the pinned tree 0..8 x -11..11; thorough at least 0..12 x -18..18) against the statement's selection rule; GS1/GS2 hygiene. " +
 			"Decides these necessary conditions; the regexp-based case converters are not decided.",
 		Assumptions: []string{"go/ssa faithful to the source", "contracts of unicode.ToLower/ToUpper, strings.HasPrefix/HasSuffix/Repeat, strings.Builder"},
 		NotDecided:  []string{"integer overflow of len+offset / offset+length in Substr at the extremes of int", "that the repeated pad token is long enough for the cut beyond the empty-token case (the float arithmetic of Pad's halves)", "CamelCase/SnakeCase/KebabCase word splitting (regular expressions)"},
